@@ -185,35 +185,37 @@ Proof.
 Qed.
 Print Assumptions C20_panic_logged_refuted.
 
-(* Status and size are exact, for EVERY handler script — contract-breaking ones included: a
-   second WriteHeader, a WriteHeader after the first Write, a written response followed by an
-   error status (the middleware's own fallback WriteHeader then comes too late), a panic after a
-   partial response.  On a GET-like request every line carries the status the underlying
-   writer committed and the number of body bytes it delivered: failed writes are not counted,
-   the fallback error body is.  ([final_codes]: no 1xx informational WriteHeader, which the
-   writer model does not cover.) *)
-Theorem C20_logged_status_size_exact_partial :
+(* Status and size are exact, for EVERY request method and EVERY handler script —
+   contract-breaking ones included: a second WriteHeader, a WriteHeader after the first Write, a
+   written response followed by an error status (the middleware's own fallback WriteHeader then
+   comes too late), a panic after a partial response.  Every line carries the status the
+   underlying writer committed and the number of body bytes it delivered: failed writes are not
+   counted, the fallback error body is, and for a HEAD request — whose body net/http accepts
+   and drops — the size is 0.  ([head_ok]: a HEAD request is answered through a writer that
+   sends no body, which holds for every net/http writer; [final_codes]: no 1xx informational
+   WriteHeader, which the writer model does not cover.) *)
+Theorem C20_logged_status_size_exact :
   forall c cs tbl ek rules path ops ret,
-  w_head c = false -> final_codes ops = true ->
+  head_ok c = true -> final_codes ops = true ->
   let '(u', _, _, lines) := log_serve c cs tbl ek rules path ops ret uw0 return Prop in
   forall l, In l lines -> snd (fst l) = client_status u' /\ snd l = u_size u'.
 Proof. exact logged_exact. Qed.
-Print Assumptions C20_logged_status_size_exact_partial.
+Print Assumptions C20_logged_status_size_exact.
 
 (* the same for a whole request through the site, whatever sits between log and the handler
    (errors directive, header directive) and the server's own fallback included: the lines
    equal what the client sees *)
-Theorem C20_site_logged_exact_partial :
+Theorem C20_site_logged_exact :
   forall c cs tbl (haserr hdrw : bool) ds path ops ret,
-  w_head c = false -> final_codes ops = true ->
+  head_ok c = true -> final_codes ops = true ->
   let '(st, sz, lines) := site_serve c cs tbl haserr hdrw ds path ops ret return Prop in
   forall l, In l lines -> snd (fst l) = st /\ snd l = sz.
 Proof. exact site_logged_exact. Qed.
-Print Assumptions C20_site_logged_exact_partial.
+Print Assumptions C20_site_logged_exact.
 
-(* the former refutation witnesses (F-C20-5: the recorder kept the LAST WriteHeader argument)
-   now log what the client got *)
-Example C20_site_logged_exact_partial_nonvacuous :
+(* the former refutation witnesses now log what the client got (F-C20-5: the recorder kept the
+   LAST WriteHeader argument; F-C20-2: for HEAD the error body was counted but never sent) *)
+Example C20_site_logged_exact_nonvacuous :
   site_serve {| w_nethttp := true; w_head := false |} false [(404%Z, 14)] false false
     [ {| d_scope := bs "/"; d_except := [] |} ] (bs "/x") [] 404%Z = (404%Z, 14, [(0%nat, 404%Z, 14)]) /\
   site_serve {| w_nethttp := true; w_head := false |} false [] true false
@@ -221,14 +223,7 @@ Example C20_site_logged_exact_partial_nonvacuous :
   site_serve {| w_nethttp := true; w_head := false |} false [] false false
     [ {| d_scope := bs "/"; d_except := [] |} ] (bs "/x") [OWH 200%Z; OW 3 None; OWH 500%Z] 0%Z = (200%Z, 3, [(0%nat, 200%Z, 3)]) /\
   site_serve {| w_nethttp := true; w_head := false |} false [(500%Z, 26)] false false
-    [ {| d_scope := bs "/"; d_except := [] |} ] (bs "/x") [OW 3 None] 500%Z = (200%Z, 29, [(0%nat, 200%Z, 29)]).
-Proof. vm_compute. repeat split; reflexivity. Qed.
-
-(* and for HEAD requests the size is not exact: the error body is counted but never sent *)
-Theorem C20_logged_size_head_refuted :
-  exists ops ret,
-  final_codes ops = true /\
+    [ {| d_scope := bs "/"; d_except := [] |} ] (bs "/x") [OW 3 None] 500%Z = (200%Z, 29, [(0%nat, 200%Z, 29)]) /\
   site_serve {| w_nethttp := true; w_head := true |} false [(404%Z, 14)] false false
-    [ {| d_scope := bs "/"; d_except := [] |} ] (bs "/x") ops ret = (404%Z, 0, [(0%nat, 404%Z, 14)]).
-Proof. exists [], 404%Z. vm_compute. split; reflexivity. Qed.
-Print Assumptions C20_logged_size_head_refuted.
+    [ {| d_scope := bs "/"; d_except := [] |} ] (bs "/x") [] 404%Z = (404%Z, 0, [(0%nat, 404%Z, 0)]).
+Proof. vm_compute. repeat split; reflexivity. Qed.
